@@ -296,6 +296,9 @@ func agreeEmbed(r *engine.Run) {
 	okR := true
 	var missing []string
 	for _, b := range wantR {
+		if b == (bound{"32", ""}) && got[bound{"32", "40"}] {
+			continue // the weight cut as [32:40] instead of [32:]: the same eight bytes are read
+		}
 		if !got[b] {
 			okR = false
 			missing = append(missing, "["+b.lo+":"+b.hi+"]")
@@ -1145,12 +1148,24 @@ func depCheckpoint(r *engine.Run, rule string) {
 				if strings.Contains(engine.AddrPath(x.X), "oldRoot") {
 					return true, ""
 				}
+				// a package-level value that no function of the package assigns (the hash of the empty trie)
+				if g, ok := x.X.(*ssa.Global); ok && !globalAssigned(r, g) {
+					return true, ""
+				}
 				return false, "reads " + engine.AddrPath(x.X)
 			}
 			return onlyCk(x.X, depth+1)
 		case *ssa.Call:
 			if b, ok := x.Call.Value.(*ssa.Builtin); ok && b.Name() == "len" {
 				return onlyCk(x.Call.Args[0], depth+1)
+			}
+			if isBytesEq(x) {
+				for _, a := range x.Call.Args {
+					if ok, why := onlyCk(a, depth+1); !ok {
+						return false, why
+					}
+				}
+				return true, ""
 			}
 			return false, "calls " + engine.CalleeName(x)
 		case *ssa.ChangeType:
@@ -1162,6 +1177,7 @@ func depCheckpoint(r *engine.Run, rule string) {
 	}
 	n := 0
 	o := ord{}
+	emptinessReported := false
 	engine.Instrs(f, func(in ssa.Instruction) {
 		st, ok := in.(*ssa.Store)
 		if !ok {
@@ -1174,6 +1190,7 @@ func depCheckpoint(r *engine.Run, rule string) {
 		n++
 		// the conditions that decide whether this store executes
 		bad := ""
+		byWeight := ""
 		for _, b := range f.Blocks {
 			iff, ok := b.Instrs[len(b.Instrs)-1].(*ssa.If)
 			if !ok {
@@ -1190,6 +1207,9 @@ func depCheckpoint(r *engine.Run, rule string) {
 			}
 			if ok, why := onlyCk(iff.Cond, 0); !ok {
 				bad = "the condition at " + r.P.Pos(iff.Pos()) + " " + why
+			}
+			if weightTest(iff.Cond) {
+				byWeight = r.P.Pos(iff.Cond.Pos())
 			}
 		}
 		// a restored reference is built from the checkpoint's fields
@@ -1208,12 +1228,82 @@ func depCheckpoint(r *engine.Run, rule string) {
 				}
 			}
 		}
+		if byWeight != "" && !emptinessReported {
+			emptinessReported = true
+			r.Fail(rule, fn(f)+"|emptiness by hash", byWeight, "whether the checkpoint is the empty trie is decided by its weight: entries of weight 0 are entries, so a checkpoint of total weight 0 that holds keys is rolled back to the empty trie instead of its own root")
+		}
 		r.Check(bad == "", rule, o.next(fn(f)+"|store root"), r.P.Pos(st.Pos()), "decided by and built from the checkpoint (oldRoot) only",
 			"what Rollback installs as the root depends on the state being rolled back ("+bad+"): after a commit that deleted every key, or from an empty checkpoint, the checkpoint is not restored")
 	})
 	if n < 2 {
 		r.Anchor(rule, fmt.Errorf("unresolved anchor: %d stores to root in Rollback", n))
 	}
+	if !emptinessReported {
+		r.OK(rule, fn(f)+"|emptiness by hash", r.P.Pos(f.Pos()), "no weight comparison decides which root is installed")
+	}
+	// RollbackTrie: the same for the node it is given
+	if g := wfn(r, rule, "RollbackTrie"); g != nil {
+		pos := ""
+		engine.Instrs(g, func(in ssa.Instruction) {
+			if iff, ok := in.(*ssa.If); ok && weightTest(iff.Cond) {
+				pos = r.P.Pos(iff.Cond.Pos())
+			}
+		})
+		r.Check(pos == "", rule, fn(g)+"|emptiness by hash", r.P.Pos(g.Pos()), "no weight comparison decides which root is installed",
+			"whether the requested root is the empty trie is decided by its weight ("+pos+"): a root of total weight 0 that holds keys (entries of weight 0) is replaced by the empty trie")
+	}
+}
+
+// weightTest: a comparison of a weight (a load of a weight field, a Weight() call) with the constant 0.
+func weightTest(c ssa.Value) bool {
+	for {
+		u, ok := c.(*ssa.UnOp)
+		if !ok || u.Op != token.NOT {
+			break
+		}
+		c = u.X
+	}
+	b, ok := c.(*ssa.BinOp)
+	if !ok {
+		return false
+	}
+	x, y := b.X, b.Y
+	if isZero(x) {
+		x, y = y, x
+	}
+	if !isZero(y) {
+		return false
+	}
+	if fl := fieldLoadOf(x); fl != nil && fl.Name() == "weight" {
+		if _, isLoad := x.(*ssa.UnOp); isLoad {
+			return true
+		}
+	}
+	if cc, ok := x.(*ssa.Call); ok {
+		if _, ok := engine.IsMethodCall(cc, "Weight"); ok {
+			return true
+		}
+	}
+	return false
+}
+
+// globalAssigned: some function of the repository (other than a package initialiser) stores into g.
+func globalAssigned(r *engine.Run, g *ssa.Global) bool {
+	for _, f := range r.P.RepoFuncs() {
+		if f.Name() == "init" || strings.HasPrefix(f.Name(), "init#") {
+			continue
+		}
+		found := false
+		engine.Instrs(f, func(in ssa.Instruction) {
+			if st, ok := in.(*ssa.Store); ok && st.Addr == ssa.Value(g) {
+				found = true
+			}
+		})
+		if found {
+			return true
+		}
+	}
+	return false
 }
 
 // lockMark: in the parallel collection of GetPath each worker marks its key's
@@ -1330,7 +1420,16 @@ func domSameRoot(r *engine.Run, rule string) {
 	var eq *ssa.Call
 	engine.Instrs(f, func(in ssa.Instruction) {
 		if c, ok := in.(*ssa.Call); ok && isBytesEq(c) {
-			eq = c
+			// the comparison with the current root's hash (there may be others: with the empty trie's hash)
+			for _, a := range c.Call.Args {
+				if hc, ok := a.(*ssa.Call); ok {
+					if recv, ok := engine.IsMethodCall(hc, "Hash"); ok {
+						if fl := fieldLoadOf(recv); fl != nil && fl.Name() == "root" {
+							eq = c
+						}
+					}
+				}
+			}
 		}
 	})
 	n := 0
